@@ -13,7 +13,7 @@ ADDENDA = {
  "C02": "Later additions: the requires= keyword spelling of declarations, falsy produced/seeded values (also in the exhaustive shapes), optional evaluation before the enabled/disabled configuration is applied, repeated evaluation of one graph object.",
  "C03": "Later additions: BlacklistedSpec as a fault kind, observers as functools.partial / callable instances / bound methods, falsy values, a warm-up evaluation of the same graph object.",
  "C04": "Later additions: brokers hydrated from a serialized archive (found and fixed a KeyError in dr.run), sub-check override (overriding spec implementations under every schedule), graph dicts that are not closed under dependencies, falsy values, records for components outside the graph are reported.",
- "C05": "Later additions: evaluations between spec-set definitions, implementations that succeed with a falsy value ('', 0, []).",
+ "C05": "Later additions: evaluations between spec-set definitions, implementations that succeed with a falsy value ('', 0, []); sub-check 'shipped': the same resolver is applied exhaustively to the repository's own registry (every registry point of insights.specs.Specs x every execution context any shipped implementation declares, ~6 800 cases) with every datasource body replaced by a recording stub, so the shipped wiring (IGNORE table, context handlers, RegistryPoint look-up) is exercised without touching the host.",
  "C06": "Later additions: sub-check collect (end-to-end collect.collect() with manifest configs and a deny list by component name, literal path and literal command), paths through a directory link followed by '..', in-root symlinks among the files that are persisted.",
  "C07": "Later addition: the archive path is also read with the size limit lowered (truncated read of extra-huge files).",
  "C08": "Later additions: an exempt spec cleaned by the same cleaner first, regex exclusion patterns with capturing groups and numbered back-references.",
